@@ -107,10 +107,12 @@ func (g *Gen) collectNames() {
 	}
 }
 
-// lookupLocal finds the SSA value bound to a source name at the start of block at (phis of `at` included).
+// lookupLocal finds the SSA value bound to a source name at the start of block at (phis of `at` included):
+// among the SSA versions of the variable whose definition dominates the point, the closest one.
 func (g *Gen) lookupLocal(name string, at *ssa.BasicBlock, atEnd bool) (namedVal, bool) {
 	cands := g.names[name]
 	var best *namedVal
+	bestD, bestI := -3, -1
 	depth := func(b *ssa.BasicBlock) int {
 		d := 0
 		for x := b; x != nil; x = x.Idom() {
@@ -118,40 +120,54 @@ func (g *Gen) lookupLocal(name string, at *ssa.BasicBlock, atEnd bool) (namedVal
 		}
 		return d
 	}
+	// a variable that lives in memory (address-taken local, captured variable) is always read through its cell
 	for i := range cands {
 		c := &cands[i]
-		ok := false
-		switch {
-		case c.blk == nil:
-			ok = true
-		case at == nil:
-			ok = false
-		case c.blk == at:
+		if !c.isAddr {
+			continue
+		}
+		switch v := c.v.(type) {
+		case *ssa.FreeVar, *ssa.Global:
+			return *c, true
+		case *ssa.Alloc:
+			if at == nil || v.Block() == at || v.Block().Dominates(at) {
+				return *c, true
+			}
+		}
+	}
+	for i := range cands {
+		c := &cands[i]
+		d, idx := -1, -1
+		switch v := c.v.(type) {
+		case *ssa.Parameter, *ssa.FreeVar, *ssa.Global:
+			d = 0
+		case *ssa.Const:
+			d = -2 // the zero value recorded at a declaration: only if nothing else is known
+		case ssa.Instruction:
+			db := v.Block()
+			if db == nil || at == nil {
+				continue
+			}
 			_, isPhi := c.v.(*ssa.Phi)
-			ok = isPhi || atEnd
-			// the definition itself may live elsewhere; require the defining instr to dominate
-			if dv, isIns := c.v.(ssa.Instruction); ok && isIns && dv.Block() != nil && dv.Block() != at && !dv.Block().Dominates(at) {
-				ok = false
+			switch {
+			case db == at:
+				if !isPhi && !atEnd {
+					continue
+				}
+			case !db.Dominates(at):
+				continue
+			}
+			d = depth(db)
+			for k, ins := range db.Instrs {
+				if ins == v {
+					idx = k
+				}
 			}
 		default:
-			ok = c.blk.Dominates(at)
-		}
-		if !ok {
 			continue
 		}
-		if best == nil {
-			best = c
-			continue
-		}
-		bd, cd := -1, -1
-		if best.blk != nil {
-			bd = depth(best.blk)
-		}
-		if c.blk != nil {
-			cd = depth(c.blk)
-		}
-		if cd > bd || (cd == bd && c.idx > best.idx) {
-			best = c
+		if best == nil || d > bestD || (d == bestD && idx > bestI) {
+			best, bestD, bestI = c, d, idx
 		}
 	}
 	if best == nil {
@@ -172,6 +188,7 @@ func (g *Gen) Generate() {
 	entry := Heap{}
 	g.entryHeap = entry
 	g.allocComp()
+	g.S.assert(not(sel(g.initSym("ALLOC"), "null")))
 	// parameters
 	for i, p := range fn.Params {
 		v := g.fresh(p.Type(), "p:"+p.Name())
@@ -198,6 +215,10 @@ func (g *Gen) Generate() {
 	if g.FT != nil {
 		g.bindFunctypeParams(env)
 		for _, c := range g.FT.Requires {
+			// a closure that does not capture a name mentioned by the generic contract simply does not get that assumption
+			if _, err := env.evalBool(c.Expr); err != nil && strings.Contains(err.Error(), "server") {
+				continue
+			}
 			g.assumeClause(env, c, "true")
 		}
 	}
@@ -490,10 +511,19 @@ func (g *Gen) enterLoop(li *loopInfo, h Heap, preds []*ssa.BasicBlock, conds []s
 		g.S.declare(n, g.compSort[c])
 		if c == "ALLOC" {
 			g.S.assert(fmt.Sprintf("(forall ((r Ref)) (! (=> (select %s r) (select %s r)) :pattern ((select %s r))))", g.hget(h, c), n, n))
+			g.S.assert(not(sel(n, "null")))
 		}
 		hh[c] = n
 	}
 	li.headHeap = hh
+	// every reference held in a loop-carried variable is allocated (or nil) in the loop-head heap
+	for _, ins := range b.Instrs {
+		phi, ok := ins.(*ssa.Phi)
+		if !ok {
+			break
+		}
+		g.assumeAllocated(hh, g.vals[phi])
+	}
 	guard := g.reach[b]
 	// obligations on entry + assumptions at head
 	envEntry := g.newEnv(h, g.entryHeap, b)
@@ -684,6 +714,7 @@ func (g *Gen) autoCandidates(li *loopInfo, entryVals map[*ssa.Phi]Val) []autoCan
 	// frame candidates: a component havocked by the loop is unchanged on every object that existed at function entry
 	if ((g.FC != nil && g.FC.HasAssign) || (g.FT != nil && g.FT.HasAssign)) && g.mode.Contracts {
 		al := g.initSym(g.allocComp())
+		whole, allowed, _, okf := g.frameSpec()
 		var cs []string
 		for c := range li.havoc {
 			cs = append(cs, c)
@@ -691,17 +722,21 @@ func (g *Gen) autoCandidates(li *loopInfo, entryVals map[*ssa.Phi]Val) []autoCan
 		sort.Strings(cs)
 		for _, c := range cs {
 			so := g.compSort[c]
-			if c == "ALLOC" || !strings.HasPrefix(so, "(Array Ref ") {
+			if c == "ALLOC" || !strings.HasPrefix(so, "(Array Ref ") || !okf || whole[c] {
 				continue
 			}
 			comp := c
+			var ex []string
+			for _, r := range allowed[c] {
+				ex = append(ex, not(eq("r", r)))
+			}
 			out = append(out, autoCand{id: fmt.Sprintf("loop%d:frame:%s", li.ordinal, c),
 				expr: func(pv func(*ssa.Phi) Val, h Heap) string {
 					cur, init := g.hget(h, comp), g.initSym(comp)
 					if cur == init {
 						return "true"
 					}
-					return fmt.Sprintf("(forall ((r Ref)) (! (=> (select %s r) (= (select %s r) (select %s r))) :pattern ((select %s r))))", al, cur, init, cur)
+					return fmt.Sprintf("(forall ((r Ref)) (! (=> %s (= (select %s r) (select %s r))) :pattern ((select %s r))))", and(append([]string{sel(al, "r")}, ex...)...), cur, init, cur)
 				}})
 		}
 	}
